@@ -521,15 +521,12 @@ def accept_cell(P, A):
             return mc_mod.MosCollection.from_s3(bucket_name='b', prefix='prefix/', allow_incomplete=allow)
         if src == 'readers':
             readers_list = [mc_mod.MosReader.from_string(h) for h in handles]
-            kept = list(readers_list)
         out = call(build, exc)
         B.hit()
         if src == 'readers':
             again = call(build, exc)
             if again.raised != out.raised or (out.raised and type(again.exc) is not type(out.exc)):
                 sig = 'second-collection-from-the-same-readers-differs'
-            elif len(readers_list) != len(kept) or any(a is not b for a, b in zip(readers_list, kept)):
-                sig = "the-caller's-reader-list-was-changed"
         one_id = True
         for r in rids[1:]:
             if (r is None) != (rids[0] is None) or (r is not None and r != rids[0]):
